@@ -3,7 +3,7 @@
 driver (command `modelbatch`: dmntk_model::parse -> ModelEvaluator::new -> evaluate_invocable for every decision and decision service):
 
 generated acyclic requirement graphs (quick 60, thorough 600 models; seeded): 3 number inputs, 3 knowledge models (each `x * c + d` plus the
-knowledge models it requires, invoked by literal expression), 7 decisions whose logic is a literal expression, a boxed context or a boxed
+knowledge models it requires, invoked by literal expression) and a fourth that requires a decision service and calls it as a function, 7 decisions whose logic is a literal expression, a boxed context or a boxed
 invocation over a random subset of the inputs, of the EARLIER decisions (so diamonds, a decision required directly and through another),
 of the knowledge models and of the earlier decision services (called as functions with positional arguments), and 2 decision services (one
 output or two, encapsulated decisions, input data, optionally an input decision). Every decision and service is invoked by name with two
@@ -44,7 +44,7 @@ def gen(seed):
     for k in range(1, NDEC + 1):
         name = 'Dec %d' % k
         d = {'inputs': [i for i in INPUTS if rnd.random() < 0.5], 'decs': [x for x in order if x.startswith('Dec') and rnd.random() < 0.45],
-             'bkms': [b for b in ('K1', 'K2', 'K3') if rnd.random() < 0.35], 'svcs': [s for s in m.svc if len(m.svc[s]['outs']) == 1 and rnd.random() < 0.5], 'kind': rnd.choice(['lit', 'lit', 'ctx', 'inv'])}
+             'bkms': [b for b in ('K1', 'K2', 'K3', 'K4') if b in m.bkm and rnd.random() < 0.35], 'svcs': [s for s in m.svc if len(m.svc[s]['outs']) == 1 and rnd.random() < 0.5], 'kind': rnd.choice(['lit', 'lit', 'ctx', 'inv'])}
         terms = [('const', rnd.choice(PRIMES))]
         for n in d['inputs'] + d['decs']:
             terms.append(('var', rnd.choice(PRIMES), n))
@@ -87,6 +87,9 @@ def gen(seed):
                 pass
             m.svc[sname] = {'outs': outs, 'enc': enc, 'indec': indec, 'ins': ins, 'params': ins + indec}
             order.append(sname)
+            if k == 3:
+                # a knowledge model that requires the first service and calls it as a function with its own argument for every parameter
+                m.bkm['K4'] = {'c': rnd.choice(PRIMES[:8]), 'd': rnd.choice(PRIMES[8:]), 'req': [b for b in ('K2',) if rnd.random() < 0.5], 'svc': sname}
     m.order = order
     return m
 
@@ -116,8 +119,10 @@ def xml(m):
     for i in INPUTS:
         out.append('  <inputData name="%s" id="%s"><variable name="%s" typeRef="number"/></inputData>' % (i, ident(i), i))
     for (n, b) in m.bkm.items():
-        reqs = ''.join('<knowledgeRequirement><requiredKnowledge href="#%s"/></knowledgeRequirement>' % ident(r) for r in b['req'])
+        reqs = ''.join('<knowledgeRequirement><requiredKnowledge href="#%s"/></knowledgeRequirement>' % ident(r) for r in b['req'] + ([b['svc']] if b.get('svc') else []))
         body = 'x * %d + %d' % (b['c'], b['d']) + ''.join(' + %s(x)' % r for r in b['req'])
+        if b.get('svc'):
+            body += ' + %s(%s)' % (b['svc'], ', '.join('x' for _ in m.svc[b['svc']]['params']))
         out.append('  <businessKnowledgeModel name="%s" id="%s"><variable name="%s"/><encapsulatedLogic><formalParameter name="x" typeRef="number"/>'
                    '<literalExpression><text>%s</text></literalExpression></encapsulatedLogic>%s</businessKnowledgeModel>' % (n, ident(n), n, body, reqs))
     for n in m.order:
@@ -156,7 +161,11 @@ def xml(m):
 
 def ev_bkm(m, n, x):
     b = m.bkm[n]
-    return x * b['c'] + b['d'] + sum(ev_bkm(m, r, x) for r in b['req'])
+    v = x * b['c'] + b['d'] + sum(ev_bkm(m, r, x) for r in b['req'])
+    if b.get('svc'):
+        sv = m.svc[b['svc']]
+        v += ev_svc(m, b['svc'], {p_: x for p_ in sv['params']})
+    return v
 
 
 def ev_term(m, t, env):
